@@ -247,7 +247,15 @@ func safe(f func() map[string]any) (m map[string]any) {
 			m = map[string]any{"a": "Panic", "what": fmt.Sprint(e)}
 		}
 	}()
-	return f()
+	m = f()
+	if v, ok := m["val"]; ok {
+		// a fingerprint of the value tree: two trees of different shape cannot be compared in TLA+ (an evaluation error,
+		// not a verdict), their fingerprints can
+		if b, err := json.Marshal(v); err == nil {
+			m["valh"] = hs(string(b))
+		}
+	}
+	return m
 }
 
 func subj4(p *dhcpv4.DHCPv4) subject {
@@ -839,6 +847,11 @@ func genC20(o *Out, rng *rand.Rand, tier string) {
 			p.UpdateOption(dhcpv4.OptRFC3004UserClass([]string{"ipxe", "boot"}))
 			p.UpdateOption(dhcpv4.OptClientArch(iana.EFI_X86_64, iana.EFI_ARM64))
 			p.UpdateOption(dhcpv4.OptDomainSearch(&rfc1035label.Labels{Labels: []string{"a.example", "b.a.example"}}))
+			if kk >= 2 {
+				// codes that are markers on the wire, held in the map like any other (a program that copies option maps around)
+				p.Options[255] = []byte{}
+				p.Options[0] = []byte{}
+			}
 			if kk%2 == 1 {
 				if q, err := dhcpv4.FromBytes(p.ToBytes()); err == nil {
 					return subj4(q)
